@@ -227,6 +227,12 @@ Fixpoint win_hi (f : aop) (i : nat) (l : list (nat * aop)) : nat :=
   | (_, o) :: t => if o_ret f <? o_call o then i else win_hi f (S i) t
   end.
 
+(** answers of the custom-data API on the unchanged code: 200 / 201, or 503 (kind or item exists / is missing:
+    the handlers report every store error through ClusterPanic) *)
+Definition is_custom (r : req) : bool := match r with RCustom => true | _ => false end.
+Definition custom_status_ok (f : aop) : bool :=
+  (o_status f =? 200) || (o_status f =? 201) || (o_status f =? 503).
+
 Definition explains (st : store) (f : aop) : bool :=
   if o_hit f then
     (* cut short before any write: 5xx; if it got as far as its object write (which then failed)
@@ -238,6 +244,7 @@ Definition explains (st : store) (f : aop) : bool :=
   | RFail c => o_status f =? c
   | RRead None => o_status f =? 404
   | RRead (Some (k, b)) => (o_status f =? 200) && String.eqb k (o_rkind f) && String.eqb b (o_rbody f)
+  | RNoopDone => is_custom (o_req f) && custom_status_ok f   (* identity on objects and version *)
   | _ => false
   end.
 
@@ -337,6 +344,7 @@ Definition res_matches (r : option result) (f : aop) : bool :=
   | Some (RRead None) => o_status f =? 404
   | Some (RRead (Some (k, b))) => (o_status f =? 200) && String.eqb k (o_rkind f) && String.eqb b (o_rbody f)
   | Some (RErr _) => is_err f
+  | Some RNoopDone => is_custom (o_req f) && custom_status_ok f
   | _ => false
   end.
 
@@ -372,7 +380,8 @@ Definition check_api (pinned : quirks) (c : api_case) : result4 :=
              | [] => 0%N
              | _ => (1 + bN (has_status 409 c) 1 + bN (has_kind_change c) 2 + bN (has_status 404 c) 4
                      + bN (a_conc c) 8 + bN (existsb (fun o => negb (Nat.eqb (o_mem o) 0)) (a_ops c)) 16
-                     + bN (existsb o_hit (a_ops c)) 32 + bN (existsb is_part (a_ops c)) 64)%N
+                     + bN (existsb o_hit (a_ops c)) 32 + bN (existsb is_part (a_ops c)) 64
+                     + bN (existsb (fun o => is_custom (o_req o)) (a_ops c)) 128)%N
              end in
   (api_corr pinned c, api_prop c, cls, 0%N).
 
